@@ -74,6 +74,7 @@ func checkC17(w *World, r *Report) {
 	}
 	r.Rule("C17.pool", "P5,P6", "the pool-send success path appends a trace whose Address is the recipient, Genesis=false, FromGenesisAccount=false and FromGenesisPool = pool.GenesisPool", 4)
 	r.Rule("C17.split", "P5,P6", "the split path appends a trace only when the sender is traced, with Address = recipient, Genesis=false, FromGenesisPool = sender.FromGenesisPool and FromGenesisAccount = sender.Genesis || sender.FromGenesisAccount (truth table)", 5)
+	r.Rule("C17.key", "P8", "sibling agreement on the store key of a trace: every writer and every reader on the message and block trees uses AccAddress.String() of a parsed address, never a string as spelled in a message (found F21)", 3)
 	r.Rule("C17.only", "P4", "trace writers reachable from messages are exactly these two append sites", 2)
 	r.Rule("C17.summary", "P6,P8", "summary: all = accounts + pools; delegated = vesting - locked (this order); accounts summed over GetVestingCoins / LockedCoins of the traced accounts at block time; the genesis variant filters by IsGenesisOrFromGenesis (all three flags) and takes pools from GetGenesisAmount (only genesis pools, currently locked); closed world: a recorded account is left out of the sums only by the genesis filter or the account-type test, and the loop is never left early", 11)
 	if !ro.checkFloors(r) {
@@ -121,9 +122,22 @@ func checkC17(w *World, r *Report) {
 			r.Bad("C17.pool", "pool send appends one trace", w.Pos(send.Pos()), fmt.Sprintf("%d trace appends in the pool-send operation", len(sites)))
 		} else {
 			s := sites[0]
-			toAddr := paramOfType(send, "string", 1) // (owner, toAddr, vestingPoolName)
-			addrOK := tf["Address"] != nil && tf["Address"] == ssa.Value(toAddr)
-			r.Check(addrOK, "C17.pool", "trace.Address = recipient", w.Pos(s.Instr.Pos()), "the recipient address parameter", "the trace is recorded for another address than the recipient")
+			// the recipient is the address the account was created at; the trace is keyed by its canonical rendering
+			var created ssa.Value
+			for _, cs := range cg.Sites[send] {
+				if calleeIs(cs, "x/cfevesting/keeper.Keeper.newVestingAccount") {
+					for _, a := range cs.Args() {
+						if strings.HasSuffix(typeString(a.Type()), "types.AccAddress") {
+							created = a
+						}
+					}
+				}
+			}
+			addrOK := false
+			if c, ok := isCallTo(tf["Address"], "types.AccAddress.String"); ok && created != nil && c.Common().Args[0] == created {
+				addrOK = true
+			}
+			r.Check(addrOK, "C17.pool", "trace.Address = recipient", w.Pos(s.Instr.Pos()), "String() of the very address the account was created at", "the trace is not recorded under the canonical rendering of the address the account was created at (a raw message string may be spelled differently from every later lookup)")
 			r.Check(tf["FromGenesisPool"] != nil && loadOfField(tf["FromGenesisPool"], "GenesisPool", nil), "C17.pool", "trace.FromGenesisPool = pool.GenesisPool", w.Pos(s.Instr.Pos()), "sourced from the pool's flag", "FromGenesisPool is not sourced from the pool's GenesisPool flag")
 			r.Check(isFalse(tf["Genesis"]) && isFalse(tf["FromGenesisAccount"]), "C17.pool", "trace.Genesis = trace.FromGenesisAccount = false", w.Pos(s.Instr.Pos()), "constants false", "a pool-derived account is marked as genesis / from-genesis-account")
 			// the pool whose flag is read is the pool that was debited
@@ -205,6 +219,29 @@ func checkC17(w *World, r *Report) {
 		}
 	}
 
+	// ---------- C17.key ----------
+	// writers and readers of the trace prefix agree on the rendering of the address: AccAddress.String()
+	{
+		canonical := func(v ssa.Value) bool {
+			_, ok := isCallTo(v, "types.AccAddress.String")
+			return ok
+		}
+		for fn := range cg.Reach(append(append([]*ssa.Function{}, flatten(ro.MSG)...), flatten(ro.BLK)...)) {
+			if !w.isProdFunc(fn) {
+				continue
+			}
+			for _, s := range cg.Sites[fn] {
+				switch {
+				case calleeIs(s, "x/cfevesting/keeper.Keeper.GetVestingAccountTrace"), calleeIs(s, "x/cfevesting/keeper.Keeper.RemoveVestingAccountTrace"):
+					a := s.Args()
+					r.Check(canonical(a[len(a)-1]), "C17.key", funcName(fn)+": trace looked up under the canonical address", w.Pos(s.Instr.Pos()), "AccAddress.String()", "the trace is looked up under a string that is not the canonical rendering of an address")
+				case calleeIs(s, "x/cfevesting/keeper.Keeper.AppendVestingAccountTrace"), calleeIs(s, "x/cfevesting/keeper.Keeper.SetVestingAccountTrace"):
+					tf := traceFields(fn)
+					r.Check(canonical(tf["Address"]), "C17.key", funcName(fn)+": trace stored under the canonical address", w.Pos(s.Instr.Pos()), "AccAddress.String()", "the trace is stored under a string taken from the message: bech32 accepts several spellings of one address, so later lookups by the canonical rendering miss it and the lineage is lost")
+				}
+			}
+		}
+	}
 	// ---------- C17.only ----------
 	{
 		reach := cg.Reach(flatten(ro.MSG))
